@@ -124,50 +124,68 @@ def _send_coverage(r):
     return int(m.group(2)) if m else 0
 
 
-def _model_check(res, quick):
+def _model_check_compute(quick):
+    """The TLC runs only (no access to the Result: runs in a background thread)."""
     R = rng("c18/mc")
     w = 8
     init = [R.randrange(256) for _ in range(w)]
-    jobs = []   # (menus, maxreq)
+    jobs = []   # (menus, maxreq, with TLC coverage statistics)
     if quick:
-        jobs += [(mn, 3) for mn in _menus(R, w, 2, 3)]
-        jobs += [(mn, 2) for mn in _menus(R, w, 5, 1)]
+        # -coverage doubles the cost of a run: in the quick tier only a small run collects the
+        # per-action statistics, the big runs are checked for vacuity by their depth (see below)
+        jobs += [(mn, 3, False) for mn in _menus(R, w, 2, 2)]
+        jobs += [(mn, 2, False) for mn in _menus(R, w, 5, 1)]
+        jobs += [(mn, 2, True) for mn in _menus(R, w, 2, 1)]
     else:
-        jobs += [(mn, 3) for mn in _menus(R, w, 3, 8)]
-        jobs += [(mn, 3) for mn in _menus(R, w, 4, 1)]
-        jobs += [(mn, 2) for mn in _menus(R, w, 7, 3)]
+        jobs += [(mn, 3, True) for mn in _menus(R, w, 3, 8)]
+        jobs += [(mn, 3, True) for mn in _menus(R, w, 4, 1)]
+        jobs += [(mn, 2, True) for mn in _menus(R, w, 7, 3)]
     tmp = tempfile.mkdtemp(prefix="c18mc_")
     ncpu = os.cpu_count() or 4
     par = min(len(jobs), max(1, ncpu // 3))
 
     def one(i):
-        menus, maxreq = jobs[i]
+        menus, maxreq, cov = jobs[i]
         fn = os.path.join(tmp, "mc_%d.json" % i)
         with open(fn, "w") as f:
             json.dump({"init": init, "menu": menus}, f)
         return tlc.run("MagicMemMC", cfg_text=_mc_cfg(2, w, maxreq), env={"VERIF_INPUT": fn},
-                       coverage=True, workers=max(2, ncpu // par), timeout=3000, heap="2g")
+                       coverage=cov, workers=max(2, ncpu // par), timeout=3000, heap="2g")
 
     try:
         with ThreadPoolExecutor(max_workers=par) as ex:
             runs = list(ex.map(one, range(len(jobs))))
     finally:
         shutil.rmtree(tmp, ignore_errors=True)
-    for (menus, maxreq), r in zip(jobs, runs):
+    return jobs, runs
+
+
+def _model_check_record(res, jobs, runs):
+    ncov = 0
+    for (menus, maxreq, cov), r in zip(jobs, runs):
         res.add_tlc(r)
         tag = "mc:maxreq=%d:%s" % (maxreq, "|".join(",".join("%s@%d/%d" % (NAMES[q["t"]], q["a"], q["n"])
                                                                for q in mn) for mn in menus))
         if r.violated:
             res.violation("model:%s:%s" % (sorted(set(r.violated)), tag),
                           "MagicMem.tla violates %s" % r.violated, r.out[-3000:])
+            continue
         elif not r.ok:
             raise MachineryError("TLC failed on MagicMemMC: %s\n%s" % (r.errors, r.out[-2500:]))
-        for act in ("Process", "Deliver"):
-            if r.coverage.get(act, (0, 0))[1] == 0:
-                raise MachineryError("action %s never taken in MagicMemMC (vacuous)" % act)
-        if _send_coverage(r) == 0:
-            raise MachineryError("action Send never taken in MagicMemMC (vacuous)")
+        # not vacuous: the complete state graph has depth 3 * ports * MaxReq + 1 only if behaviours
+        # with every request sent, processed and delivered were explored
+        if r.depth != 3 * 2 * maxreq + 1:
+            raise MachineryError("MagicMemMC explored depth %d, expected %d (vacuous?)" % (r.depth, 6 * maxreq + 1))
+        if cov:
+            ncov += 1
+            for act in ("Process", "Deliver"):
+                if r.coverage.get(act, (0, 0))[1] == 0:
+                    raise MachineryError("action %s never taken in MagicMemMC (vacuous)" % act)
+            if _send_coverage(r) == 0:
+                raise MachineryError("action Send never taken in MagicMemMC (vacuous)")
         res.distinct(tag)
+    if ncov == 0:
+        raise MachineryError("no MagicMemMC run collected action coverage")
     res.note("model_check_bounds", "2 ports, window 8 bytes (words at 0 and 2 overlap), %s"
              % ", ".join("menu %d x <=%d req/port" % (len(j[0][0]), j[1]) for j in jobs))
     # model canary: a memory whose Process forgets sub-word lengths must violate SequentialImage --
@@ -179,10 +197,8 @@ def _model_check(res, quick):
 # 2. spec -> code on MagicMemoryFL
 # ==============================================================================================
 
-def _spec_to_code(res, quick):
-    import c18_drv as D
-    from pymtl3 import Bits32, zext
-    from pymtl3.stdlib.mem.MagicMemoryFL import MagicMemoryFL
+def _s2c_inputs(quick):
+    """Inputs of the TLC -simulate rounds (drawn up front so that the rounds can run side by side)."""
     R = rng("c18/s2c")
     w = 12
     uni = []
@@ -197,20 +213,56 @@ def _spec_to_code(res, quick):
             if a + n <= w:
                 uni.append({"t": 0, "o": 0, "a": a, "n": n, "d": [0] * 4})
                 uni.append({"t": 1, "o": 0, "a": a, "n": n, "d": _le(R.getrandbits(32))})
-    nb = 0
-    nsteps = 0
-    kinds = collections.Counter()
-    rounds = 2 if quick else 8
+    rounds, num = (4, 30) if quick else (16, 75)
+    out = []
     for k in range(rounds):
         init = [R.randrange(256) for _ in range(w)]
         menus = [R.sample(uni, 14) for _ in range(2)]
-        with tempfile.TemporaryDirectory(prefix="c18s2c_") as td:
-            fn = os.path.join(td, "in.json")
-            with open(fn, "w") as f:
-                json.dump({"init": init, "menu": menus}, f)
-            r, behs = tlc.simulate_traces("MagicMemMC", cfg_text=_mc_cfg(2, w, 6, invs=False),
-                                          env={"VERIF_INPUT": fn}, num=60 if quick else 150, depth=40,
-                                          sd=R.randrange(1 << 30))
+        out.append({"w": w, "init": init, "menus": menus, "num": num, "sd": R.randrange(1 << 30)})
+    return out
+
+
+def _s2c_simulate(inp):
+    """One TLC -simulate round (runs in a worker process) -> (TLCRun, behaviours)."""
+    with tempfile.TemporaryDirectory(prefix="c18s2c_") as td:
+        fn = os.path.join(td, "in.json")
+        with open(fn, "w") as f:
+            json.dump({"init": inp["init"], "menu": inp["menus"]}, f)
+        r, behs = tlc.simulate_traces("MagicMemMC", cfg_text=_mc_cfg(2, inp["w"], 6, invs=False),
+                                      env={"VERIF_INPUT": fn}, num=inp["num"], depth=40, sd=inp["sd"])
+    # only what the replay needs crosses the process boundary: per behaviour the successive
+    # (history entry, image) pairs
+    w = inp["w"]
+    slim = []
+    for beh in behs:
+        steps = []
+        nh = 0
+        for (_name, _args, st) in beh:
+            h = st["hist"]
+            if len(h) == nh:
+                continue
+            if len(h) != nh + 1:
+                return r, None
+            nh = len(h)
+            e = h[-1]
+            steps.append(({"t": e["req"]["t"], "a": e["req"]["a"], "n": e["req"]["n"], "d": list(e["req"]["d"])},
+                          list(e["data"]), [st["mem"][i] for i in range(w)]))
+        slim.append(steps)
+    r.out = r.out[-3000:]
+    return r, slim
+
+
+def _spec_to_code(res, quick, inputs, sims):
+    import c18_drv as D
+    from pymtl3 import Bits32, zext
+    from pymtl3.stdlib.mem.MagicMemoryFL import MagicMemoryFL
+    nb = 0
+    nsteps = 0
+    kinds = collections.Counter()
+    for inp, (r, behs) in zip(inputs, sims):
+        init, w = inp["init"], inp["w"]
+        if behs is None:
+            raise MachineryError("simulated behaviour skips a Process step")
         if not behs:
             raise MachineryError("TLC -simulate produced no behaviours for MagicMemMC\n%s" % r.out[-2000:])
         res.add_tlc(r)
@@ -218,20 +270,10 @@ def _spec_to_code(res, quick):
             fl = MagicMemoryFL(D.MEM_NBYTES)
             fl.elaborate()
             fl.write_mem(D.BASE, bytearray(init))
-            nh = 0
             nb += 1
-            bad = False
-            for (_name, _args, st) in beh:
-                if bad:           # the images have diverged: later steps of this behaviour say nothing new
-                    break
-                h = st["hist"]
-                if len(h) == nh:
-                    continue
-                if len(h) != nh + 1:
-                    raise MachineryError("simulated behaviour skips a Process step")
-                nh = len(h)
-                e = h[-1]
-                q = e["req"]
+            hist = []
+            for (q, edata, exp_img) in beh:
+                hist.append(q)
                 n = 4 if q["n"] == 0 else q["n"]
                 addr = Bits32(D.BASE + q["a"])
                 data = Bits32(D.from_le(q["d"]))
@@ -245,17 +287,16 @@ def _spec_to_code(res, quick):
                 else:
                     got = []
                 img = list(fl.read_mem(D.BASE, w))
-                exp_img = [st["mem"][i] for i in range(w)]
                 nsteps += 1
                 kinds[NAMES[q["t"]]] += 1
                 res.add_evals()
-                if list(e["data"]) != got or img != exp_img:
-                    bad = True
-                    res.violation("fl-replay:%s:%s" % (NAMES[q["t"]], "returned-data" if list(e["data"]) != got else "image"),
+                if list(edata) != got or img != exp_img:
+                    res.violation("fl-replay:%s:%s" % (NAMES[q["t"]], "returned-data" if list(edata) != got else "image"),
                                   "MagicMemoryFL %s at offset %d len %d data %s: model expects returned %s image %s, "
                                   "implementation returned %s image %s"
-                                  % (NAMES[q["t"]], q["a"], q["n"], q["d"], list(e["data"]), exp_img, got, img),
-                                  {"init": init, "hist": [str(x) for x in h]})
+                                  % (NAMES[q["t"]], q["a"], q["n"], q["d"], list(edata), exp_img, got, img),
+                                  {"init": init, "hist": [str(x) for x in hist]})
+                    break     # the images have diverged: later steps of this behaviour say nothing new
     if nsteps == 0 or len([k for k in kinds if k in ("ad", "mi", "mu", "mx", "xu")]) < 5:
         raise MachineryError("spec->code replay did not reach the arithmetic AMOs: %s" % dict(kinds))
     res.note("spec_to_code_process_steps_replayed", nsteps)
@@ -369,12 +410,13 @@ def _job(j):
     return t
 
 
+_POOL = None      # worker processes of this run (forked in run() before any thread is started)
+
+
 def _run_jobs(jobs):
     if not jobs:
         return []
-    ctx = multiprocessing.get_context("fork")
-    with ctx.Pool(min(len(jobs), os.cpu_count() or 4)) as pool:
-        return pool.map(_job, jobs, chunksize=max(1, len(jobs) // (4 * (os.cpu_count() or 4))))
+    return _POOL.map(_job, jobs, chunksize=max(1, len(jobs) // (8 * (os.cpu_count() or 4))))
 
 
 # ==============================================================================================
@@ -436,12 +478,19 @@ def _validate(res, traces, chunk=None, timeout=3000):
         shutil.rmtree(tmp, ignore_errors=True)
 
 
-def _strip(t, tol="none"):
-    """The trace for the inferred-order mode: no Process events; a request of the stream memory
-    counts as sent from the cycle it is presented (offer), since that memory may evaluate it from
-    then on -- the statement does not tie the processing point to the val/rdy handshake."""
+def _strip(t, tol="none", offers=True):
+    """The trace for the inferred-order mode: no Process events (TLC looks for a processing order).
+
+    offers=True (stream memory): a request counts as sent from the first cycle it is presented (val),
+    not from its handshake (val & rdy).  The statement does not tie the processing point to the
+    handshake, so a memory that evaluates a presented request ONCE somewhere between offer and
+    acceptance is admitted; the model still applies every request exactly once and answers it
+    exactly once, so a request applied twice with a visible effect, or applied and never answered,
+    has no explaining order.  (MagicMemoryRTL processes at the handshake, which lies in that
+    interval.)  offers=False: sent at the handshake -- the stronger reading, which a memory that
+    processes at the handshake must satisfy as well."""
     c = dict(t)
-    if "ev_inf" in t:
+    if offers and "ev_inf" in t:
         c["ev"] = t["ev_inf"]
     else:
         c["ev"] = [e for e in t["ev"] if e["k"] != "proc"]
@@ -623,7 +672,9 @@ def _inferred(res, good, quick):
     sub = cand[:40 if quick else 500]
     if not sub:
         raise MachineryError("no accepted trace small enough for the inferred-order mode")
-    iv = _validate(res, [_strip(t) for t in sub], chunk=6)
+    # every second run with "sent at the handshake" (a run accepted with the logged order has its
+    # Process events behind the handshakes, so both readings must find an order)
+    iv = _validate(res, [_strip(t, offers=(k % 2 == 0)) for k, t in enumerate(sub)], chunk=6)
     for t, (err, pos) in zip(sub, iv):
         if err != "ok":
             # accepted with the logged order but no order found without it: the two modes disagree
@@ -690,6 +741,48 @@ def _timing_independence(res, quick):
         "groups_with_a_member_rejected_by_the_spec": skipped})
 
 
+def _synthetic_canaries(res):
+    """Hand-written histories of one port and one amo.add (memory word 5 -> 6): what the statement
+    admits must be accepted, each shape of mis-processing must be rejected with its clause.  The
+    shapes are those of a memory that evaluates a request while its handshake is stalled."""
+    w = 8
+    init = [5, 0, 0, 0, 0, 0, 0, 0]
+    req = {"p": 0, "t": 3, "o": 0x5a, "a": 0, "n": 0, "d": [1, 0, 0, 0]}
+    send = dict(req, k="send")
+
+    def proc(old):
+        return {"k": "proc", "op": "amo", "t": 3, "a": 0, "nb": 4, "d": [1, 0, 0, 0], "r": [old, 0, 0, 0],
+                "w": [old + 1, 0, 0, 0]}
+
+    def dlv(old):
+        return {"k": "dlv", "p": 0, "t": 3, "o": 0x5a, "n": 0, "d": [old, 0, 0, 0]}
+
+    def tr(ev, fin, mode):
+        if mode == "inf":
+            ev = [e for e in ev if e["k"] != "proc"]
+        return {"np": 1, "W": w, "init": init, "ev": ev, "final": [fin] + [0] * (w - 1), "mode": mode, "tol": "none"}
+
+    cases = [
+        # (name, events, final byte 0, expected linear verdict, expected inferred verdict)
+        ("applied-once-at-the-handshake", [send, proc(5), dlv(5)], 6, "ok", "ok"),
+        # evaluated in the stalled cycle, applied again when accepted: the response carries the second call
+        ("applied-twice-response-of-second-call", [proc(5), send, proc(6), dlv(6)], 7, NEEDS_CONFIRMATION, "rej"),
+        # the same with a response that hides it: the image still shows two additions
+        ("applied-twice-response-of-first-call", [send, proc(5), proc(6), dlv(5)], 7, NEEDS_CONFIRMATION, "rej"),
+        ("applied-and-never-answered", [send, proc(5)], 6, "requests-left-unanswered", "rej"),
+        ("answered-and-never-applied", [send, dlv(5)], 5, "response-without-processed-request", "rej"),
+        ("response-is-the-new-value", [send, proc(5), dlv(6)], 6, "amo-response-not-old-value", "rej"),
+    ]
+    lin = _validate(res, [tr(ev, fin, "lin") for (_n, ev, fin, _l, _i) in cases], chunk=len(cases))
+    inf = _validate(res, [tr(ev, fin, "inf") for (_n, ev, fin, _l, _i) in cases], chunk=len(cases))
+    for (name, _ev, _fin, el, ei), lv, iv in zip(cases, lin, inf):
+        if lv[0] != el:
+            raise MachineryError("synthetic history %s: linear mode says %s, expected %s" % (name, lv[0], el))
+        if (iv[0] == "ok") != (ei == "ok"):
+            raise MachineryError("synthetic history %s: inferred mode says %s, expected %s" % (name, iv[0], ei))
+    return [c[0] for c in cases]
+
+
 def _canaries(res, good):
     """Corrupted copies of accepted traces must be rejected."""
     R = rng("c18/canary")
@@ -747,23 +840,29 @@ def _canaries(res, good):
             cc = copy.deepcopy(c)
             cc["ev"][d[0]]["d"][3] ^= 0x80
             lin.append(cc); exp.append("amo"); kinds["amo"] += 1
-        # inferred mode: wrong final byte / read byte with a value that occurs nowhere in the run
-        if len(inf) < 10 and len(ev) <= 60 and not any(e["k"] == "send" and e["t"] in AMOS for e in ev):
-            used = set(c["init"]) | set(c["final"])
-            for e in ev:
-                used |= set(e.get("d", []))
-            free = [v for v in range(256) if v not in used]
-            if free:
-                cc = _strip(copy.deepcopy(c))
-                if len(inf) % 2 == 0:
-                    cc["final"][0] = free[0]
-                    inf.append(cc)
-                else:
-                    d = [i for i, e in enumerate(cc["ev"]) if e["k"] == "dlv" and e["t"] == 0]
-                    if d:
-                        cc["ev"][d[0]]["d"][0] = free[0]
-                        inf.append(cc)
-    if len(kinds) < 6 or len(inf) < 2:
+    # inferred mode: wrong final byte / read byte with a value that occurs nowhere in the run.  The
+    # value must be underivable, so only runs without AMOs qualify; they are looked for in the whole
+    # pool (independently of the loop above, which may be satisfied by its first few traces).
+    for t in pool:
+        if len(inf) >= 6:
+            break
+        ev = t["ev"]
+        if len(ev) > 50 or any(e["k"] == "send" and e["t"] in AMOS for e in ev):
+            continue
+        used = set(t["init"]) | set(t["final"])
+        for e in ev:
+            used |= set(e.get("d", []))
+        free = [v for v in range(256) if v not in used]
+        if not free:
+            continue
+        cc = _strip(copy.deepcopy(t))
+        d = [i for i, e in enumerate(cc["ev"]) if e["k"] == "dlv" and e["t"] == 0]
+        if len(inf) % 2 == 0 or not d:
+            cc["final"][0] = free[0]
+        else:
+            cc["ev"][d[0]]["d"][0] = free[0]
+        inf.append(cc)
+    if len(kinds) < 6 or min(kinds.values()) < 1 or len(inf) < 2:
         raise MachineryError("could not build every canary kind: %s, inferred %d" % (dict(kinds), len(inf)))
     cv = _validate(res, lin)
     acc = [exp[i] for i, v in enumerate(cv) if v[0] == "ok"]
@@ -772,8 +871,10 @@ def _canaries(res, good):
     iv = _validate(res, inf, chunk=4)
     if any(v[0] == "ok" for v in iv):
         raise MachineryError("canary traces accepted by MagicMemTrace (inferred mode)")
+    syn = _synthetic_canaries(res)
     res.note("canaries_rejected", {"linear": dict(kinds), "inferred": len(inf),
-                                   "clauses": dict(collections.Counter(v[0] for v in cv))})
+                                   "clauses": dict(collections.Counter(v[0] for v in cv)),
+                                   "synthetic_histories": syn})
 
 
 def run(res, tier):
@@ -787,12 +888,35 @@ def run(res, tier):
         ph[name] = round(time.time() - t0, 1)
         return r
 
-    timed("model_check", _model_check, res, quick)
-    timed("spec_to_code", _spec_to_code, res, quick)
-    good = timed("code_to_spec", _code_to_spec, res, quick)
-    timed("inferred_order", _inferred, res, good, quick)
-    timed("timing_independence", _timing_independence, res, quick)
-    timed("canaries", _canaries, res, good)
+    # The TLC model-checking runs and the TLC -simulate rounds need nothing from the other phases:
+    # they run in the background (a thread starting TLC processes / tasks of the worker pool) while
+    # the implementations are driven.  The pool is forked first, before any thread exists.
+    global _POOL
+    import c18_drv  # noqa: F401  (imported before the fork so that the workers share it)
+    ctx = multiprocessing.get_context("fork")
+    _POOL = ctx.Pool(os.cpu_count() or 4)
+    bg = ThreadPoolExecutor(max_workers=1)
+    try:
+        t0 = time.time()
+        s2c_in = _s2c_inputs(quick)
+        s2c_fut = [_POOL.apply_async(_s2c_simulate, (i,)) for i in s2c_in]
+        mc_fut = bg.submit(_model_check_compute, quick)
+        good = timed("code_to_spec", _code_to_spec, res, quick)
+        timed("inferred_order", _inferred, res, good, quick)
+        timed("timing_independence", _timing_independence, res, quick)
+        timed("canaries", _canaries, res, good)
+        t1 = time.time()
+        sims = [f.get(3000) for f in s2c_fut]
+        timed("spec_to_code_replay", _spec_to_code, res, quick, s2c_in, sims)
+        jobs, runs = mc_fut.result()
+        _model_check_record(res, jobs, runs)
+        ph["background_model_check_and_simulate_total"] = round(time.time() - t0, 1)
+        ph["waited_for_background_after_foreground"] = round(time.time() - t1, 1)
+    finally:
+        bg.shutdown(wait=True)
+        _POOL.terminate()
+        _POOL.join()
+        _POOL = None
     res.note("phase_wall_s", ph)
     res.note("rule", "model: every interleaving of Send/Process/Deliver for 2 ports and the listed request "
              "menus; spec->code: every Process step of simulated model behaviours replayed on MagicMemoryFL; "
